@@ -101,6 +101,27 @@ type Ctx struct {
 	sets     map[string]map[string]struct{}
 	journal  *os.File
 	maxSamples int
+	flushMu  sync.Mutex
+}
+
+// Exclusive runs f while the periodic result flush is held off (for
+// measurements that must not see the harness' own allocations).
+func (c *Ctx) Exclusive(f func()) {
+	c.flushMu.Lock()
+	defer c.flushMu.Unlock()
+	f()
+}
+
+// Abort flushes what was observed so far and ends the child process normally
+// (used by watchdogs after they recorded their finding).
+func (c *Ctx) Abort(note string) {
+	c.Note("aborted: %s", note)
+	locked := c.flushMu.TryLock() // the stuck call may hold it; flush anyway
+	_ = c.flushNoLock(true)
+	if locked {
+		c.flushMu.Unlock()
+	}
+	os.Exit(0)
 }
 
 func newCtx(p *Prop, tier string, seed int64, shard, nshards int, mode, out string) *Ctx {
@@ -262,6 +283,12 @@ func (c *Ctx) Journal(format string, a ...any) {
 }
 
 func (c *Ctx) flush(completed bool) error {
+	c.flushMu.Lock()
+	defer c.flushMu.Unlock()
+	return c.flushNoLock(completed)
+}
+
+func (c *Ctx) flushNoLock(completed bool) error {
 	c.mu.Lock()
 	defer c.mu.Unlock()
 	c.res.Completed = completed
